@@ -242,6 +242,21 @@ func init() {
 		{Kind: "calls", File: "v2/pkg/astvalidation/operation_rule_all_variable_uses_defined.go", Func: "allVariableUsesDefinedVisitor.EnterArgument", Name: "allVariableUsesDefinedEnterArgument", Match: []string{"if", "return", "for", "a.*", "bytes.*"}},
 		{Kind: "calls", File: "v2/pkg/astvalidation/operation_rule_known_arguments.go", Func: "knownArgumentsVisitor.EnterArgument", Name: "knownArgumentsEnterArgument", Match: []string{"if", "return", "for", "v.*", "bytes.*"}},
 	}
+	// C18: connection sharing, registration, dispatch and shutdown of the upstream multiplexing client
+	wt := "v2/pkg/engine/datasource/graphql_datasource/subscriptionclient/transport/"
+	wm := []string{"if", "return", "for", "select", "recv:*", "t.*", "c.*", "close", "delete", "handler", "connKey", "len", "time.AfterFunc", "defer:*", "h.*", "json.Marshal", "make"}
+	specs["C18"] = []item{
+		{Kind: "calls", File: wt + "ws_transport.go", Func: "WSTransport.getOrDial", Name: "getOrDial", Match: wm},
+		{Kind: "calls", File: wt + "ws_transport.go", Func: "WSTransport.Subscribe", Name: "transportSubscribe", Match: wm},
+		{Kind: "calls", File: wt + "ws_transport.go", Func: "WSTransport.removeConn", Name: "removeConn", Match: wm},
+		{Kind: "calls", File: wt + "ws_transport.go", Func: "connKey", Name: "connKey", Match: wm},
+		{Kind: "calls", File: wt + "ws_conn.go", Func: "wsConnection.subscribe", Name: "connSubscribe", Match: wm},
+		{Kind: "calls", File: wt + "ws_conn.go", Func: "wsConnection.removeSub", Name: "removeSub", Match: wm},
+		{Kind: "calls", File: wt + "ws_conn.go", Func: "wsConnection.unsubscribe", Name: "unsubscribe", Match: wm},
+		{Kind: "calls", File: wt + "ws_conn.go", Func: "wsConnection.dispatch", Name: "dispatch", Match: wm},
+		{Kind: "calls", File: wt + "ws_conn.go", Func: "wsConnection.shutdown", Name: "shutdown", Match: wm},
+		{Kind: "calls", File: wt + "ws_conn.go", Func: "wsConnection.readLoop", Name: "readLoop", Match: wm},
+	}
 	// C15: the literal → JSON converter and the block string value
 	av := "v2/pkg/ast/ast_value.go"
 	asv := "v2/pkg/ast/ast_val_string_value.go"
